@@ -16,7 +16,7 @@ CONES = {
     "C08": ("ops", "neigh"), "C11": ("ops", "tour", "trans"),
     "C09": ("tour", "trans"), "C10": ("tour", "trans"), "C13": ("tour",),
 }
-SIZES = {"quick": {"ops": 32, "neigh": 20, "tour": 24, "trans": 30},
+SIZES = {"quick": {"ops": 48, "neigh": 30, "tour": 32, "trans": 40},
          "thorough": {"ops": 600, "neigh": 300, "tour": 400, "trans": 500}}
 
 
